@@ -9,6 +9,12 @@ def run_case(c):
     rec = dict(c)
     net = netcommon.build(c)
     rec["m"], rec["x"] = netcommon.observe(net, c, netcommon.PLAIN + netcommon.NSI)
+    # the same queries on two further fresh objects, in the listed and in the opposite order (flat encoding):
+    # a measure is a function of the network, not of what was asked before
+    from props import c01
+    rec["f1"], _ = netcommon.observe(netcommon.build(c), c, netcommon.PLAIN + netcommon.NSI, encode=c01.flat)
+    rec["f2"], _ = netcommon.observe(netcommon.build(c), c, netcommon.PLAIN + netcommon.NSI, encode=c01.flat,
+                                     reverse=True)
     return rec
 
 
@@ -52,6 +58,6 @@ def main(ctx):
 
 def replay(ctx, rep):
     rec = rep["record"]
-    case = {k: v for k, v in rec.items() if k not in ("m", "x")}
+    case = {k: v for k, v in rec.items() if k not in ("m", "x", "f1", "f2")}
     recs = ctx.run_cases("props.c03.run_case", [case], jobs=1)
     ctx.validate("Val_C03", "Val_C03", recs, nontrivial=_nontrivial)
